@@ -4431,19 +4431,31 @@ GRsetattr(int32 id, const char *name, int32 attr_nt, int32 count, const void *da
         {                 /* not cacheable, write directly out to disk and throw away old in-memory copy */
             int32 AttrID; /* attribute Vdata id */
 
-            /* Update data on disk */
-            if ((AttrID = VSattach(hdf_file_id, (int32)at_ptr->ref, "w")) == FAIL)
-                HGOTO_ERROR(DFE_CANTATTACH, FAIL);
-            if (VSsetfields(AttrID, at_ptr->name) == FAIL) {
-                VSdetach(AttrID);
-                HGOTO_ERROR(DFE_BADFIELDS, FAIL);
-            } /* end if */
-            if (VSwrite(AttrID, data, count, FULL_INTERLACE) == FAIL) {
-                VSdetach(AttrID);
-                HGOTO_ERROR(DFE_VSWRITE, FAIL);
-            } /* end if */
-            if (VSdetach(AttrID) == FAIL)
-                HGOTO_ERROR(DFE_CANTDETACH, FAIL);
+            if (at_ptr->ref == DFREF_WILDCARD) {
+                /* set earlier in this session and still only in memory: there is nothing on disk
+                   to update yet, store it the way a new uncacheable attribute is stored */
+                int32 new_ref = VHstoredata(hdf_file_id, at_ptr->name, data, count, at_ptr->nt, RIGATTRNAME,
+                                            RIGATTRCLASS);
+                if (new_ref == FAIL)
+                    HGOTO_ERROR(DFE_VSCANTCREATE, FAIL);
+                at_ptr->ref  = (uint16)new_ref;
+                *update_flag = TRUE;
+            }
+            else {
+                /* Update data on disk */
+                if ((AttrID = VSattach(hdf_file_id, (int32)at_ptr->ref, "w")) == FAIL)
+                    HGOTO_ERROR(DFE_CANTATTACH, FAIL);
+                if (VSsetfields(AttrID, at_ptr->name) == FAIL) {
+                    VSdetach(AttrID);
+                    HGOTO_ERROR(DFE_BADFIELDS, FAIL);
+                } /* end if */
+                if (VSwrite(AttrID, data, count, FULL_INTERLACE) == FAIL) {
+                    VSdetach(AttrID);
+                    HGOTO_ERROR(DFE_VSWRITE, FAIL);
+                } /* end if */
+                if (VSdetach(AttrID) == FAIL)
+                    HGOTO_ERROR(DFE_CANTDETACH, FAIL);
+            }
 
             /* Update in-memory fields */
             at_ptr->len           = count;
